@@ -165,6 +165,28 @@ def cfg_history(tier, seed):
 def run_history(W, cfg):
     m, n, M, N = cfg['m'], cfg['n'], cfg['M'], cfg['N']
     lt = W.lentil
+
+    def layouts_ok():
+        # an output buffer that is not C-contiguous (column-major, a window of a larger frame, a transposed view): either the result
+        # is in the caller's buffer and that buffer is returned, or the buffer is refused loudly - never accepted and left unwritten
+        import numpy as real
+        rng = real.random.default_rng(5)
+        f = rng.normal(size=(m, n)) + 1j * rng.normal(size=(m, n))
+        kwargs = dict(shape=(M, N), shift=(0.25, -0.5))
+        ref = lt.fourier.dft2(f, (0.2, 0.3), **kwargs)
+        big = real.full((M + 2, N + 3), 7 + 7j)
+        for name, buf in (('fortran', real.asfortranarray(real.full((M, N), 7 + 7j))), ('window', big[1:M + 1, 2:N + 2]),
+                          ('transposed', real.full((N, M), 7 + 7j).T), ('strided', real.full((M, 2 * N), 7 + 7j)[:, ::2])):
+            for fn, want in ((lt.fourier.dft2, ref), (lt.fourier.idft2, real.conj(lt.fourier.dft2(real.conj(f), (0.2, 0.3), **kwargs)))):
+                buf[...] = 7 + 7j
+                try:
+                    got = fn(f, (0.2, 0.3), out=buf, **kwargs)
+                except (ValueError, TypeError):
+                    continue
+                if got is not buf or not real.allclose(buf, want, rtol=1e-9, atol=1e-12):
+                    return False
+        return True
+    W.ob_concrete('an output buffer that is not C-contiguous is either filled (and returned) or refused, never silently left unwritten', layouts_ok)
     for k in range(cfg['calls']):
         f = W.complexes(f'f{k}', (m, n))
         ar, ac = W.real(f'ar{k}'), W.real(f'ac{k}')
